@@ -170,8 +170,29 @@ def conv_oracle(inp):
     return None
 
 
+def json_decoder_limit_cases(tier, rng, escalate):
+    """raw JSON: documents the scanner frames correctly but the DECODER refuses with something other than
+    JSONDecodeError (an integer literal beyond the interpreter's digit limit -> ValueError; very deep nesting ->
+    RecursionError), well within the size limit, followed by good documents: exactly one parse error, the rest intact"""
+    import sys
+    thorough = tier == "thorough" or escalate
+    digits = (sys.get_int_max_str_digits() or 4300) + 1
+    bad_docs = [b"1" * digits + b"\n", b"[" * 3000 + b"]" * 3000]
+    limit = 2 * digits + 7000
+    for bad in bad_docs:
+        for docs in ([bad, b'{"a":1}', b"[2]"], [b"[0]", bad, b'"x"']):
+            stream = b"".join(docs)
+            chunkings = [[stream], sc.cuts_to_chunks(stream, [len(docs[0])]), sc.cuts_to_chunks(stream, [1, len(stream) - 2])]
+            for _k in range(4 if thorough else 1):
+                chunkings.append(sc.cuts_to_chunks(stream, [rng.randrange(1, len(stream)) for _ in range(3)]))
+            for chunks in chunkings:
+                yield dict(input=sc2.make_simple_case(4, [limit], [b"jsonraw"], chunks) + [docs],
+                           tags=["kind4", "jsonraw", "decoder-limit", "has-bad-doc"], nontrivial=True)
+
+
 def cases(tier, rng, escalate):
     yield from json_cases(tier, rng, escalate)
+    yield from json_decoder_limit_cases(tier, rng, escalate)
     yield from json_ws_cases(tier, rng, escalate)
     yield from conv_cases(tier, rng, escalate)
     yield from sep_cases(tier, rng, escalate)
@@ -240,7 +261,7 @@ def json_oracle(inp):
         try:
             _json.loads(d)
             want.append("ok")
-        except ValueError:
+        except (ValueError, RecursionError):
             want.append("err")
     if got != want:
         return f"raw JSON: events {got} differ from document-by-document decoding {want} (docs={docs!r})"
